@@ -47,6 +47,7 @@ Apply(e) ==
     \/ e.op = "abort"     /\ IF WOpen(e.tx) THEN Abort(e.tx) ELSE Finished(e.tx, "abort")
     \/ e.op = "chans"     /\ Range(e.closed) \subseteq DOMAIN chan /\ Observe(Range(e.closed))
     \/ e.op = "changes"   /\ Changes(e.tx, e.t, e.it)
+    \/ e.op = "observe"   /\ ObserveStart(e.it, e.t)
     \/ e.op = "next"      /\ IterNext(e.it, e.src, e.cs, e.cw, e.ex, e.w)
     \/ e.op = "iterclose" /\ IterClose(e.it)
     \/ e.op = "reginit"   /\ RegInit(e.tx, e.t, e.name)
